@@ -24,6 +24,20 @@ def tokenize(s):
     i = 0
     s = s.strip()
     while i < len(s):
+        # decltype(<arbitrary expression>): one token (balanced parentheses at character level)
+        m = re.match(r'\s*decltype\s*\(', s[i:])
+        if m:
+            j = i + m.end()
+            depth = 1
+            while j < len(s) and depth:
+                if s[j] == '(':
+                    depth += 1
+                elif s[j] == ')':
+                    depth -= 1
+                j += 1
+            toks.append('decltype(' + re.sub(r'\s+', ' ', s[i + m.end():j - 1]).strip() + ')')
+            i = j
+            continue
         # lambda / anonymous types: "(lambda at file:line:col)" or "(anonymous ...)" taken as one token
         m = re.match(r'\s*\((lambda|anonymous|unnamed)[^()]*\)', s[i:])
         if m:
@@ -82,6 +96,9 @@ class _P:
         if tok is None:
             raise TypeParseError('empty type')
         if tok.startswith('(') and len(tok) > 1:  # lambda
+            self.next()
+            return ('n', tok, frozenset())
+        if tok.startswith('decltype('):
             self.next()
             return ('n', tok, frozenset())
         if tok == 'decltype':
